@@ -9,6 +9,7 @@
 #include <sstream>
 
 #include "gen.hpp"
+#include "place_detailed/incr_net_model.hpp"
 #include "project.hpp"
 #include "trace.hpp"
 
@@ -78,6 +79,72 @@ static void scenario(const std::string &scen, int run, Circuit base, const Coloq
     call(quiet, a, "A", "legalize", p);
     Circuit b = base;
     call(cx, b, "B", "detailed", p);
+  } else if (scen == "incr") {
+    // C09: incremental 1-D wirelength models (all cells / a subset) under random position updates
+    Circuit a = base;
+    vg::Rng r((uint64_t)run * 77 + 5);
+    for (int axis = 0; axis < 2; ++axis) {
+      std::vector<int> sub;
+      bool all = r.chance(0.4);
+      for (int i = 0; i < a.nbCells(); ++i)
+        if (all || r.chance(0.5)) sub.push_back(i);
+      if (!all) std::shuffle(sub.begin(), sub.end(), r.g);
+      if (sub.empty()) sub.push_back(0);
+      IncrNetModel m = axis == 0 ? IncrNetModel::xTopology(a, sub) : IncrNetModel::yTopology(a, sub);
+      auto log = [&](int step) {
+        Value e = vt::ev("Incr");
+        Value sv = Value::array();
+        for (int c : sub) sv.push(c + 1);
+        e.set("run", run).set("axis", axis == 0 ? "x" : "y").set("sub", sv).set("step", step).set("val", m.value());
+        e.set("circ", vp::circuitToJson(a));
+        vt::emit(e);
+      };
+      log(0);
+      int nUpd = (int)r.in(3, 12);
+      Rectangle area = a.computePlacementArea();
+      for (int k = 0; k < nUpd; ++k) {
+        int j = (int)r.in(0, (int)sub.size() - 1);
+        int lo = axis == 0 ? area.minX : area.minY, hi = axis == 0 ? area.maxX : area.maxY;
+        int p = r.chance(0.2) ? (int)r.in(lo - (hi - lo), hi + (hi - lo)) : (int)r.in(lo, hi);
+        if (r.chance(0.15)) p = m.cellPos(j);  // no-op update
+        m.updateCellPos(j, p);
+        (axis == 0 ? a.cellX_ : a.cellY_)[sub[j]] = p;
+        log(k + 1);
+      }
+    }
+  } else if (scen == "free") {
+    // C15: free space of every row of the circuit against its fixed cells plus random extra obstacles
+    vg::Rng r((uint64_t)run * 131 + 7);
+    Rectangle area = base.computePlacementArea();
+    int H = base.rowHeight();
+    std::vector<Rectangle> extra;
+    int ne = (int)r.in(0, 3);
+    for (int k = 0; k < ne; ++k) {
+      int x0 = (int)r.in(area.minX - 3 * H, area.maxX + H), y0 = (int)r.in(area.minY - 2 * H, area.maxY + H);
+      extra.emplace_back(x0, x0 + (int)r.in(0, std::max(1, area.width() / 2)), y0, y0 + (int)r.in(0, 3 * H));
+    }
+    std::vector<Row> all = base.computeRows(extra);
+    Value obs = Value::array();
+    auto addRect = [&](Rectangle q) {
+      obs.push(Value::object().set("x0", q.minX).set("x1", q.maxX).set("y0", q.minY).set("y1", q.maxY));
+    };
+    for (Rectangle q : extra) addRect(q);
+    for (int i = 0; i < base.nbCells(); ++i)
+      if (base.isFixed(i) && base.isObstruction(i)) addRect(base.placement(i));
+    int idx = 0;
+    for (const Row &row : base.rows()) {
+      Value e = vt::ev("Free");
+      Value segs = Value::array();
+      for (const Row &f : all) {
+        // segments of this row: same y-range and inside the row's x-range (rows are pairwise disjoint)
+        if (f.minY == row.minY && f.maxY == row.maxY && f.minX >= row.minX && f.maxX <= row.maxX)
+          segs.push(Value::object().set("x0", f.minX).set("x1", f.maxX).set("o", vp::orientName(f.orientation)));
+      }
+      e.set("run", run).set("idx", idx++);
+      e.set("row", Value::object().set("x0", row.minX).set("x1", row.maxX).set("y0", row.minY).set("y1", row.maxY).set("o", vp::orientName(row.orientation)));
+      e.set("obs", obs).set("segs", segs).set("total", (long long)all.size()).set("nrows", (long long)base.rows().size());
+      vt::emit(e);
+    }
   } else if (scen == "glob") {
     Circuit a = base;
     call(cx, a, "A", "global", p);
